@@ -567,3 +567,34 @@ Proof.
   intros pfx F H k Hk. unfold foreign_okb in H. rewrite forallb_forall in H. specialize (H k Hk).
   apply negb_true_iff in H. exact H.
 Qed.
+
+(* ================================================================ table-absolute spelling ("/data/x") *)
+Definition abs_join (n : nat) (k : key) : str := repeat slash n ++ join k.
+
+Definition op_segs (o : op key) : key :=
+  match o with Write k _ | Read k | Exists k | ListDir k | Delete k | Size k | Mtime k => k end.
+
+Lemma lstrip_abs : forall n k, Forall wf_seg k -> lstrip_slash (abs_join n k) = join k.
+Proof.
+  unfold abs_join. induction n as [|n IH]; intros k Hk; [apply lstrip_join; exact Hk|].
+  cbn [repeat app lstrip_slash]. rewrite ascii_eqb_refl. apply IH. exact Hk.
+Qed.
+
+Lemma get_key_abs : forall pfx n k, Forall wf_seg k -> gen_get_s3_key pfx (abs_join n k) = gen_get_s3_key pfx (join k).
+Proof. intros pfx n k Hk. unfold gen_get_s3_key. cbv zeta. rewrite (lstrip_abs n k Hk), (lstrip_join k Hk). reflexivity. Qed.
+
+Lemma components_abs : forall n k, Forall wf_seg k -> components (abs_join n k) = k.
+Proof.
+  unfold abs_join, components. induction n as [|n IH]; intros k Hk; [apply components_join; exact Hk|].
+  cbn [repeat app split_acc]. rewrite ascii_eqb_refl. apply IH. exact Hk.
+Qed.
+
+(* both backends treat any number of leading slashes as the same key, for every operation *)
+Theorem leading_slash_same : forall pfx (b : bucket) (s : lstate) (n : nat) (o : op key), Forall wf_seg (op_segs o) ->
+  s3_step pfx b (map_op (abs_join n) o) = s3_step pfx b (map_op join o)
+  /\ local_step_str s (map_op (abs_join n) o) = local_step_str s (map_op join o).
+Proof.
+  intros pfx b s n o Ho. split.
+  - destruct o; cbn [map_op s3_step op_segs] in *; unfold gen_list_prefix; rewrite ?(get_key_abs pfx n _ Ho); reflexivity.
+  - unfold local_step_str. destruct o; cbn [map_op op_segs] in *; rewrite (components_abs n _ Ho), (components_join _ Ho); reflexivity.
+Qed.
